@@ -298,3 +298,45 @@ def axis_crossing(ctx: Ctx) -> None:
                                                       f'`{norm(c)[:70]}` relates the {_AXIS_OF[xx.attr]} labels `{norm(xx)}` to the `{yy.id}` argument: the two axes are crossed, '
                                                       'so an alignment step is skipped or applied on the wrong axis', key=key)
     ctx.require(n >= 10, 'axis-relational sites')
+
+
+def correspondence_guards(ctx: Ctx) -> None:
+    R = 'I.correspondence-guard'
+    ctx.rule(R, 'an IndexCorrespondence with no common labels carries iloc_src = iloc_dst = None (nothing to transfer): every read of X.iloc_src / X.iloc_dst / '
+             'X.iloc_src_fancy() is reached only on paths on which X.has_common or X.is_subset is known true (per path, on the branch facts of the symbolic store); '
+             'indexing with None would copy every source row into every destination row (values paired by position, not by label) or raise', floor=10)
+    prog = ctx.prog
+    n = 0
+    for f in prog.all_funcs():
+        if isinstance(f.node, ast.Lambda):
+            continue
+        reads = [a for a in walk_local(f.node) if isinstance(a, ast.Attribute) and a.attr in ('iloc_src', 'iloc_dst', 'iloc_src_fancy') and isinstance(a.value, ast.Name)
+                 and isinstance(a.ctx, ast.Load)]
+        if not reads or f.module.short == 'index_correspondence':
+            continue
+        ids = {id(a) for a in reads}
+        se = SymEnv(f.node, watch=lambda x: id(x) in ids, max_worlds=1024, track=set(),
+                    keep_fact=lambda t: t.endswith('.has_common') or t.endswith('.is_subset') or t.endswith(' is None') or t.endswith(' is not None')).run()
+        for a in reads:
+            x = a.value.id
+            worlds = se.at(a)
+            if not worlds:
+                continue
+            n += 1
+            bad_worlds = [w for w in worlds if not (se.facts(w).get(f'{x}.has_common') is True or se.facts(w).get(f'{x}.is_subset') is True)]
+            key = f'{f.qualname.split(".", 1)[1]}:{x}.{a.attr}@{_guard_sig(se, worlds, x)}'
+            if not bad_worlds:
+                ctx.ok(R, f, a, f'{x}.{a.attr} is read only where {x}.has_common / {x}.is_subset holds', key=key)
+            else:
+                fx = sorted(k for k, v in se.facts(sorted(bad_worlds)[0]).items() if len(k) < 50 and (v or k.startswith(x)))
+                ctx.bad(R, f, a, f'{x}.{a.attr} is read on a path where {x} may have no common labels (facts on that path: {fx[:4]}): it is None there, so the '
+                        'subscript selects / assigns every row at once — source rows land under labels they do not belong to (or the call raises)', key=key)
+    ctx.require(n >= 10, 'reads of IndexCorrespondence positions')
+
+
+def _guard_sig(se: SymEnv, worlds, x: str) -> str:
+    sigs = set()
+    for w in worlds:
+        f = se.facts(w)
+        sigs.add(('S' if f.get(f'{x}.is_subset') else '') + ('C' if f.get(f'{x}.has_common') else ''))
+    return '|'.join(sorted(sigs))
